@@ -99,6 +99,7 @@ type uStyle struct {
 	ID       string `json:"id"`       // concrete id for the second fragment
 	Label    string `json:"label"`    // concrete filter label
 	PageVal  string `json:"pageval"`  // concrete page size text
+	PageName string `json:"pagename"` // concrete name of a page argument other than number and size
 	FilterJS string `json:"filterjs"` // concrete filter JSON
 	// Busy: while the chain is followed, other goroutines print URLs of their own (own schema value,
 	// own labels): printing a URL concerns nobody else
@@ -255,6 +256,12 @@ func render(req uReq, st uStyle) string {
 		params = append(params, "page"+lb+"size"+rb+"=x")
 	case "both":
 		params = append(params, "page"+lb+"number"+rb+"=1", "page"+lb+"size"+rb+"="+esc(st.PageVal))
+	case "other":
+		name := st.PageName
+		if name == "" {
+			name = "cursor"
+		}
+		params = append(params, "page"+lb+esc(name)+rb+"="+esc(st.PageVal), "page"+lb+"size"+rb+"=3")
 	}
 	if req.Unknown {
 		params = append(params, "foo=bar")
@@ -539,7 +546,8 @@ func runChain(c uCase, raw string, schema *jsonapi.Schema, req uReq) uEvent {
 	special := func(s string) bool { return strings.ContainsAny(s, " &?#%+=\"\\") || !isASCIIToken(s) }
 	ev.JSONLbl = req.Filter == "label" && strings.Contains(c.Style.Label, "\\")
 	ev.Special = special(c.Style.ID) || (req.Filter == "label" && special(c.Style.Label)) ||
-		(req.Filter == "json") || (req.Page != "none" && special(c.Style.PageVal))
+		(req.Filter == "json") || (req.Page != "none" && special(c.Style.PageVal)) ||
+		(req.Page == "other" && special(c.Style.PageName))
 	p, _ := catch(func() {
 		if c.Style.Busy {
 			stop := make(chan struct{})
@@ -633,6 +641,8 @@ var (
 		`\u0020lead`, `trail\u0020`, `\u00a0nb`, `\u0020`, // bell, unit separator, DEL, a non-printable rune above the BMP
 		`say \"hi\"`, `5\"`, `\"`, `end\\`, `a%41b`, `%20x`, `x%26y&z`} // a quote or a backslash at the very end; text that looks percent-encoded
 	pageVocab   = []string{"2", "2", "10", "x y", "a&b", "1+1", "%20x", "a%41b"}
+	// names of page arguments other than number and size (a cursor, a name with reserved characters)
+	pageNames = []string{"cursor", "cursor", "after", "after&before", "a+b", "100%", "a=b", "a#b", "a]b", "a b", "numbe", "sizes"}
 	filterVocab = []string{
 		`{"f":"x","o":"=","v":"a"}`,
 		`{"f":"y","o":"<","v":3}`,
@@ -714,7 +724,7 @@ func urlMain(args []string) {
 		return uStyle{Impl: []string{"soft", "wrap"}[rng.Intn(2)], Encode: rng.Intn(2) == 0, Split: rng.Intn(3) == 0,
 			Order: rng.Int63n(1 << 30), Empties: rng.Intn(4) == 0,
 			ID: idVocab[rng.Intn(len(idVocab))], Label: labelVocab[rng.Intn(len(labelVocab))],
-			PageVal: pageVocab[rng.Intn(len(pageVocab))], FilterJS: filterVocab[rng.Intn(len(filterVocab))]}
+			PageVal: pageVocab[rng.Intn(len(pageVocab))], PageName: pageNames[rng.Intn(len(pageNames))], FilterJS: filterVocab[rng.Intn(len(filterVocab))]}
 	}
 	emit := func(c uCase) uEvent {
 		w.Inflight(c)
